@@ -35,6 +35,9 @@ func catalogue(w *world, check string) []kase {
 	if check == "C05" {
 		mode, menu = "inject", "structural"
 	}
+	if w.sc.StateOnly {
+		return stateCases(w, w.spec.IDs[:1])
+	}
 	for _, d := range deviators {
 		for _, s := range slots {
 			if s.From != d {
@@ -74,7 +77,7 @@ func catalogue(w *world, check string) []kase {
 			}
 		}
 	}
-	if check == "C04" {
+	if check == "C04" && (vkitThorough() || w.sc.Cost < 2) {
 		out = append(out, stateCases(w, deviators)...)
 	}
 	return out
